@@ -1459,6 +1459,8 @@ class TTNS(TTNBase):
             order = self.basis.basis_list
         indices_up = []
         for basis in order:
+            if isinstance(basis, BasisDummy):
+                continue
             indices_up.append(("down", str(basis.dofs)))
         output_indices = indices_up
         args.append(output_indices)
